@@ -37,6 +37,7 @@ type c13Case struct {
 	Cache   string       `json:"cache"` // none (raw-IP mode / application scan) | cache | cache+gw
 	Cached  []uint32     `json:"cached,omitempty"`
 	Seed    int64        `json:"rand_seed"`
+	Stdin   bool         `json:"list_read_from_stdin,omitempty"` // E2 only: -f -
 }
 
 func c13MAC(a uint32) net.HardwareAddr {
@@ -484,7 +485,8 @@ func c13GenLine(t *rapid.T, pairs bool, used map[uint32]bool) gram.TLine {
 		l.Text = obj(`"`+bad+`"`, fmt.Sprint(port))
 	case "bad-json":
 		good := obj(`"`+ips+`"`, fmt.Sprint(port))
-		l.Text = rapid.SampledFrom([]string{good[:len(good)-1], good[:7], "garbage", strings.ReplaceAll(good, `"`, `'`), good + " trailing", good + good, "{" + good}).Draw(t, "badjson")
+		l.Text = rapid.SampledFrom([]string{good[:len(good)-1], good[:7], "garbage", strings.ReplaceAll(good, `"`, `'`), good + " trailing", good + good, "{" + good,
+			"\xef\xbf\xbd" + good, "\xefAB" + good, "\x00" + good, "\xff\xfe" + good, ";" + good, "\u00a0" + good}).Draw(t, "badjson")
 	case "blank":
 		l.Text = rapid.SampledFrom([]string{"", " ", "   ", "\t"}).Draw(t, "blank")
 	case "too-long":
@@ -636,12 +638,23 @@ func c13CmdCheck(c c13Case) *kit.Verdict {
 		}
 		args = append(args, "-p", strings.Join(ps, ","))
 	}
-	args = append(args, "-f", files.write("targets", gram.RenderTLines(c.Lines)))
+	var stdin *string
+	if c.Stdin {
+		content := gram.RenderTLines(c.Lines)
+		stdin = &content
+		args = append(args, "-f", "-")
+		v.Label("list-from-stdin")
+	} else {
+		args = append(args, "-f", files.write("targets", gram.RenderTLines(c.Lines)))
+	}
 	if len(c.Exclude) > 0 {
 		args = append(args, "--exclude", files.write("exclude", strings.Join(c.Exclude, "\n")+"\n"))
 	}
-	res := runCmd(cmdRun{Args: args, Seed: c.Seed, Timeout: 60 * time.Second})
+	res := runCmd(cmdRun{Args: args, Seed: c.Seed, Timeout: 60 * time.Second, Stdin: stdin})
 	line := "sx " + strings.Join(args, " ")
+	if c.Stdin {
+		line += fmt.Sprintf("   (stdin: %q)", clipN(*stdin, 300))
+	}
 	if res.Hung {
 		return v.Failf("%s did not return within 60s\n%s", line, clipN(res.Goroutines, 2500))
 	}
@@ -839,9 +852,15 @@ func c13DescribeSlots(c c13Case, slots []c13Slot) string {
 
 func TestC13Commands(t *testing.T) {
 	kit.Run(t, kit.Spec[c13Case]{
-		Prop:  "C13",
-		Rule:  "E2, full commands (tcp, tcp fin, udp, icmp with -f) on the virtual wire: frames written per port and error records on stderr. Per pass the probed addresses must be those of the valid entries before some offending line (or of the whole list); error records: at most one per offending entry per pass, at least one (stating its cause) per offending entry reached, exactly one in single-pass modes; destination MAC of every frame = own cache entry else gateway. " + c13Rule,
-		Gen:   func(t *rapid.T) c13Case { return c13Gen(t, []string{"tcp", "tcp fin", "udp", "icmp"}) },
+		Prop: "C13",
+		Rule: "E2, full commands (tcp, tcp fin, udp, icmp with -f <file>; in addresses x ports mode also -f - with the list on standard input) on the virtual wire: frames written per port and error records on stderr. Per pass the probed addresses must be those of the valid entries before some offending line (or of the whole list); error records: at most one per offending entry per pass, at least one (stating its cause) per offending entry reached, exactly one in single-pass modes; destination MAC of every frame = own cache entry else gateway. " + c13Rule,
+		Gen: func(t *rapid.T) c13Case {
+			c := c13Gen(t, []string{"tcp", "tcp fin", "udp", "icmp"})
+			// the list may come from standard input (the ARP cache then always comes from a file)
+			// (accepted in addresses x ports mode only: elsewhere "-" is a file name)
+			c.Stdin = !c.Pairs && len(c.Ports) > 0 && rapid.IntRange(0, 1).Draw(t, "stdin") == 0
+			return c
+		},
 		Check: c13CmdCheck,
 	})
 }
